@@ -57,7 +57,8 @@ def first_case(rnd):
     pp = scared.preprocesses
     dt = rnd.choice(INTS + ['float32', 'float64']); n = rnd.choice([1, 3, 6]); X = rand_traces(rnd, dt, n, 4); Xf = X.astype('float64')
     small = np.abs(Xf).max() < 2 ** 20
-    checks = [('square', pp.square(X), Xf ** 2), ('ToPower(2)', pp.ToPower(2)(X), Xf ** 2), ('center', pp.center(X), Xf - Xf.mean(0)), ('CenterOn', pp.CenterOn(mean=np.arange(4.0))(X), Xf - np.arange(4.0))]
+    im = 128 if np.dtype(dt).kind == 'u' else -3
+    checks = [('CenterOn(int mean)', pp.CenterOn(mean=im)(X), Xf - im), ('CenterOn(int array mean)', pp.CenterOn(mean=np.full(4, im).astype(dt if np.dtype(dt).kind != 'f' else 'int16'))(X), Xf - im), ('square', pp.square(X), Xf ** 2), ('ToPower(2)', pp.ToPower(2)(X), Xf ** 2), ('center', pp.center(X), Xf - Xf.mean(0)), ('CenterOn', pp.CenterOn(mean=np.arange(4.0))(X), Xf - np.arange(4.0))]
     if small and n > 1 and (Xf.std(0) > 0).all(): checks.append(('standardize', pp.standardize(X), (Xf - Xf.mean(0)) / Xf.std(0)))
     for name, got, exp in checks:
         if got.dtype.kind != 'f': return '%s on %s returns dtype %s' % (name, dt, got.dtype)
